@@ -196,8 +196,50 @@ fn check_value_text(ctx: &mut Ctx, t: &[u8], seed: u64) {
             if lv.as_raw_str().as_bytes() != t {
                 ctx.fail("raw-not-trimmed:from_str", format!("as_raw_str {:?}", lv.as_raw_str()));
             }
+            // the trait forwards through references, Option and Result unchanged
+            check_view(ctx, "from_str:&V", "LazyValue", t, transcript(&&lv), ser(&lv));
+            check_view(ctx, "from_str:Option<V>", "LazyValue", t, transcript(&Some(lv.clone())), ser(&lv));
+            check_view(ctx, "from_str:Result<V>", "LazyValue", t, transcript(&Ok::<_, ()>(lv.clone())), ser(&lv));
+            // Value::try_from(lazy) is the DOM of the raw text; Display is the raw text; Eq/Ord/Hash
+            // follow the raw text
+            ctx.ops(1);
+            match (Value::try_from(lv.clone()), sonic_rs::from_slice::<Value>(t)) {
+                (Ok(a), Ok(b)) => {
+                    if a != b || sonic_rs::to_string(&a).ok() != sonic_rs::to_string(&b).ok() {
+                        ctx.fail("try_from-lazy-differs", format!("Value::try_from(lazy) = {:?} vs DOM {:?}", sonic_rs::to_string(&a), sonic_rs::to_string(&b)));
+                    }
+                }
+                (a, b) => {
+                    if a.is_ok() != b.is_ok() {
+                        ctx.fail("try_from-lazy-outcome", format!("Value::try_from(lazy) ok={} but DOM parse ok={}", a.is_ok(), b.is_ok()));
+                    }
+                }
+            }
+            {
+                use std::hash::{Hash, Hasher};
+                let shown = format!("{}", lv);
+                let dbg = format!("{:?}", lv);
+                let other = sonic_rs::get(ps, sonic_rs::pointer![]).ok();
+                let h = |x: &LazyValue| {
+                    let mut st = std::collections::hash_map::DefaultHasher::new();
+                    x.hash(&mut st);
+                    st.finish()
+                };
+                let mut bad = shown.as_bytes() != t || !dbg.contains("LazyValue");
+                if let Some(o) = &other {
+                    bad |= !(o == &lv) || o.cmp(&lv) != std::cmp::Ordering::Equal || h(o) != h(&lv) || o.partial_cmp(&lv) != Some(std::cmp::Ordering::Equal);
+                }
+                let dflt = LazyValue::default();
+                bad |= !dflt.is_null() || dflt.as_raw_str() != "null";
+                bad |= (dflt == lv) != (t == b"null") || (dflt.cmp(&lv) == std::cmp::Ordering::Equal) != (t == b"null");
+                if bad {
+                    ctx.fail("lazy-display-eq-hash", format!("Display {:?} / Debug {:?} / Eq-Ord-Hash inconsistent with the raw text {:?}", crate::core::truncate(&shown, 80), crate::core::truncate(&dbg, 80), crate::core::truncate(&String::from_utf8_lossy(t), 80)));
+                }
+            }
             // borrowed -> owned conversion
             let ov: OwnedLazyValue = lv.clone().into();
+            check_view(ctx, "From<LazyValue>:&V", "OwnedLazyValue", t, transcript(&&ov), sero(&ov));
+            check_view(ctx, "From<LazyValue>:Option<&V>", "OwnedLazyValue", t, transcript(&Some(&ov)), sero(&ov));
             check_view(ctx, "From<LazyValue>", "OwnedLazyValue", t, transcript(&ov), sero(&ov));
             owned_children(ctx, "From<LazyValue>", &ov, &d.root, t);
             let c = ov.clone();
@@ -341,16 +383,67 @@ impl M {
     }
 }
 
+fn new_scalarish(r: &mut Rng) -> (OwnedLazyValue, M) {
+    let text = (*r.pick(&["null", "true", "false", "0", "-1.5e3", "\"\"", "\"a\\nb\"", "\"plain\"", "[]", "{}", "[1, {\"x\":null}]", "{\"q\\\"\": [true]}"])).to_string();
+    let ov: OwnedLazyValue = sonic_rs::from_str(&text).expect("valid");
+    (ov, M::Raw(text))
+}
+
 fn new_value(r: &mut Rng) -> (OwnedLazyValue, M) {
     let o = DocOpts { max_depth: 2, budget: 6, dup_keys: false, ws: 1, ..DocOpts::default() };
     let mut g = doc::Gen::new(r, o);
     g.value(0);
     let text = String::from_utf8(g.out).unwrap();
-    match r.below(3) {
+    match r.below(5) {
         0 => {
             // through serde
             let ov: OwnedLazyValue = sonic_rs::from_str(&text).expect("valid");
             (ov, M::Raw(text))
+        }
+        3 => {
+            // a LazyArray assembled from parts (From<Vec>, new + push, with_capacity)
+            let n = r.below(3) as usize;
+            let parts: Vec<(OwnedLazyValue, M)> = (0..n).map(|_| new_scalarish(r)).collect();
+            let ms: Vec<M> = parts.iter().map(|(_, m)| m.clone()).collect();
+            let vals: Vec<OwnedLazyValue> = parts.into_iter().map(|(v, _)| v).collect();
+            let arr = match r.below(3) {
+                0 => sonic_rs::LazyArray::from(vals),
+                1 => {
+                    let mut a = sonic_rs::LazyArray::new();
+                    for v in vals {
+                        a.push(v);
+                    }
+                    a
+                }
+                _ => {
+                    let mut a = sonic_rs::LazyArray::with_capacity(4);
+                    a.extend(vals);
+                    a
+                }
+            };
+            (arr.into(), M::Arr(ms))
+        }
+        4 => {
+            let n = r.below(3) as usize;
+            let parts: Vec<(String, (OwnedLazyValue, M))> = (0..n).map(|i| (format!("k{}é\"{}", i, r.below(10)), new_scalarish(r))).collect();
+            let ms: Vec<(String, M)> = parts.iter().map(|(k, (_, m))| (k.clone(), m.clone())).collect();
+            let vals: Vec<(FastStr, OwnedLazyValue)> = parts.into_iter().map(|(k, (v, _))| (FastStr::new(&k), v)).collect();
+            let obj = match r.below(3) {
+                0 => sonic_rs::LazyObject::from(vals),
+                1 => {
+                    let mut o = sonic_rs::LazyObject::new();
+                    for (k, v) in vals {
+                        o.append_pair(k, v);
+                    }
+                    o
+                }
+                _ => {
+                    let mut o = sonic_rs::LazyObject::with_capacity(2);
+                    o.extend(vals);
+                    o
+                }
+            };
+            (obj.into(), M::Obj(ms))
         }
         1 => {
             // From<LazyValue> of a member obtained by get
@@ -454,7 +547,7 @@ fn history(ctx: &mut Ctx, t: &[u8], seed: u64) {
             ctx.fail("pointer_mut-none", format!("pointer_mut/get_mut {:?} returned None for an existing path; history {:?}", path, log));
             return;
         };
-        let op = r.below(6);
+        let op = r.below(9);
         match op {
             0 => {
                 // replace
@@ -493,6 +586,120 @@ fn history(ctx: &mut Ctx, t: &[u8], seed: u64) {
                     ms.push((key, nm));
                 }
                 log.push(format!("append_pair@{:?}", path));
+            }
+            6 if mt.kind() == 1 => {
+                // Vec-level edits of the element list through DerefMut
+                let Some(a) = target.as_array_mut() else {
+                    ctx.fail("as_array_mut-none", format!("as_array_mut is None on an array; history {:?}", log));
+                    return;
+                };
+                mt.open();
+                let M::Arr(xs) = mt else { return };
+                if a.len() != xs.len() {
+                    ctx.fail("lazy-array-len-differs", format!("{} vs model {}; history {:?}", a.len(), xs.len(), log));
+                    return;
+                }
+                let n = xs.len();
+                match r.below(6) {
+                    0 => {
+                        a.pop();
+                        xs.pop();
+                        log.push(format!("pop@{:?}", path));
+                    }
+                    1 => {
+                        let (nv, nm) = new_value(&mut r);
+                        let i = r.below(n as u64 + 1) as usize;
+                        a.insert(i, nv);
+                        xs.insert(i, nm);
+                        log.push(format!("insert{}@{:?}", i, path));
+                    }
+                    2 if n > 0 => {
+                        let i = r.below(n as u64) as usize;
+                        a.remove(i);
+                        xs.remove(i);
+                        log.push(format!("remove{}@{:?}", i, path));
+                    }
+                    3 if n > 1 => {
+                        a.swap(0, n - 1);
+                        xs.swap(0, n - 1);
+                        log.push(format!("swap@{:?}", path));
+                    }
+                    4 => {
+                        let k = r.below(n as u64 + 1) as usize;
+                        a.truncate(k);
+                        xs.truncate(k);
+                        log.push(format!("truncate{}@{:?}", k, path));
+                    }
+                    _ if n > 0 => {
+                        let i = r.below(n as u64) as usize;
+                        let (nv, nm) = new_value(&mut r);
+                        a[i] = nv;
+                        xs[i] = nm;
+                        log.push(format!("set{}@{:?}", i, path));
+                    }
+                    _ => {}
+                }
+                ctx.class("history:vec-edit-array");
+            }
+            7 if mt.kind() == 2 => {
+                let Some(o) = target.as_object_mut() else {
+                    ctx.fail("as_object_mut-none", format!("as_object_mut is None on an object; history {:?}", log));
+                    return;
+                };
+                mt.open();
+                let M::Obj(ms) = mt else { return };
+                if o.len() != ms.len() {
+                    ctx.fail("lazy-object-len-differs", format!("{} vs model {}; history {:?}", o.len(), ms.len(), log));
+                    return;
+                }
+                let n = ms.len();
+                match r.below(5) {
+                    0 => {
+                        let (nv, nm) = new_value(&mut r);
+                        let key = format!("p\x01{}", r.below(100));
+                        o.push((FastStr::new(&key), nv));
+                        ms.push((key, nm));
+                        log.push(format!("obj-push@{:?}", path));
+                    }
+                    1 => {
+                        o.pop();
+                        ms.pop();
+                        log.push(format!("obj-pop@{:?}", path));
+                    }
+                    2 if n > 0 => {
+                        let i = r.below(n as u64) as usize;
+                        let (nv, nm) = new_value(&mut r);
+                        o[i].1 = nv;
+                        ms[i].1 = nm;
+                        log.push(format!("obj-set{}@{:?}", i, path));
+                    }
+                    3 if n > 0 => {
+                        let i = r.below(n as u64) as usize;
+                        // the member names agree with the model (decoded)
+                        if o[i].0.as_str() != ms[i].0 {
+                            ctx.fail("lazy-object-key-differs", format!("{:?} vs model {:?}; history {:?}", o[i].0, ms[i].0, log));
+                            return;
+                        }
+                        o.remove(i);
+                        ms.remove(i);
+                        log.push(format!("obj-remove{}@{:?}", i, path));
+                    }
+                    _ => {
+                        let keep = r.below(2) as usize;
+                        let mut c = 0;
+                        o.retain(|_| {
+                            c += 1;
+                            c % 2 == keep
+                        });
+                        let mut c = 0;
+                        ms.retain(|_| {
+                            c += 1;
+                            c % 2 == keep
+                        });
+                        log.push(format!("obj-retain@{:?}", path));
+                    }
+                }
+                ctx.class("history:vec-edit-object");
             }
             3 => {
                 // clone now, compare later (mutations must not leak into it)
